@@ -738,6 +738,9 @@ namespace pl
         for (auto &n : names)
         {
             if (n == "intermediate_states") continue;
+            // RRT*'s ordered_sampling is only legal together with informed / rejection sampling (the setter logs an error for
+            // anything else and the planner then dereferences a null sampler): not a configuration in the quantifier
+            if (n == "ordered_sampling") continue;
             auto &gp = p->params()[n];
             if (gp.getRangeSuggestion() != "0,1") continue;
             if (!rng.coin(prob)) continue;
@@ -769,6 +772,7 @@ namespace pl
         }
         bool eval()
         {
+            vf::heartbeat();
             long k = ++evals;
             if (fired.load(std::memory_order_relaxed))
             {
